@@ -64,11 +64,14 @@ def make_history(rng, compress):
         r = rng.random()
         if compress:
             reqs.append(("step", {"settings": {MG: {SC: {"constants": {"rate": rng.choice([0.2, 0.6, 0.9])}}}}}))
-        elif r < 0.2:
+        elif r < 0.1:
             reqs.append(("step", {"settings": {MG: {SC: {"constants": {"rate": rng.choice([0.2, 0.6, 0.9, 1.3])}}}}}))
+        elif r < 0.2:
+            # a constant that feeds no stock (read with a delay by the requested element "billed")
+            reqs.append(("step", {"settings": {MG: {SC: {"constants": {"tariff": rng.choice([0.5, 2.0, 3.0])}}}}}))
         elif r < 0.3:
             # several constants (and points) changed by one step
-            st = {"constants": {"rate": rng.choice([0.2, 0.6, 0.9]), "cap": rng.choice([12.0, 50.0])}}
+            st = {"constants": {"rate": rng.choice([0.2, 0.6, 0.9]), "cap": rng.choice([12.0, 50.0]), "tariff": rng.choice([0.5, 2.0])}}
             if rng.random() < 0.4:
                 st["points"] = {"curve": [[0.0, 1.5], [6.0, 0.5], [30.0, 2.0]]}
             reqs.append(("step", {"settings": {MG: {SC: st}}}))
@@ -83,7 +86,7 @@ def make_history(rng, compress):
         else:
             reqs.append(("results", None))
     if not compress:
-        from vlib.srv import EQS
+        from vlib.srv import EQS_X as EQS
         r = rng.random()
         if r < 0.3 and n >= 4:
             # a second session begun on the same instance (its state is shorter than what the file holds by then)
@@ -134,7 +137,7 @@ def start_instances(app, hists):
     ids = []
     for h in hists:
         iid = json.loads(c.post("/start-instance", json={"timeout": {"hours": 4}}).get_data(as_text=True))["instance_uuid"]
-        body = {"scenario_managers": [srv.MG], "scenarios": [h.get("scen", srv.SC)], "equations": list(srv.EQS)}
+        body = {"scenario_managers": [srv.MG], "scenarios": [h.get("scen", srv.SC)], "equations": list(srv.EQS_X)}
         if h.get("begin"):
             body["settings"] = h["begin"]
         c.post("/%s/begin-session" % iid, json=body)
@@ -163,7 +166,7 @@ def missing_equation(resp):
         if isinstance(it, dict) and srv.MG in it and isinstance(it[srv.MG], dict):
             for sc, res in it[srv.MG].items():
                 if isinstance(res, dict) and "equations" not in res:
-                    missing = [e for e in srv.EQS if e not in res]
+                    missing = [e for e in srv.EQS_X if e not in res]
                     if missing:
                         return missing
     return None
